@@ -99,11 +99,11 @@ package geom
 
 //@ func NewPoint
 //@   requires strideOf(l) >= 0
-//@   ensures fresh(res) && wf0(res) && res.layout == l && len(res.flatCoords) == strideOf(l) && fresh(res.flatCoords)
+//@   ensures fresh(res) && wf0(res) && res.layout == l && len(res.flatCoords) == strideOf(l) && fresh(res.flatCoords) && res.srid == 0
 
 //@ func NewPointEmpty
 //@   requires strideOf(l) >= 0
-//@   ensures fresh(res) && wf0(res) && res.layout == l && len(res.flatCoords) == 0
+//@   ensures fresh(res) && wf0(res) && res.layout == l && len(res.flatCoords) == 0 && res.srid == 0
 
 //@ func geom0.setCoords
 //@   requires g.stride >= 0
@@ -196,7 +196,7 @@ package geom
 
 //@ func NewPolygon
 //@   requires strideOf(layout) >= 0
-//@   ensures fresh(res) && wf2(res) && res.layout == layout && len(res.flatCoords) == 0 && len(res.ends) == 0 && res.srid == 0
+//@   ensures fresh(res) && wf2(res) && res.layout == layout && res.flatCoords == nil && res.ends == nil && res.srid == 0
 
 //@ func NewMultiLineStringFlat
 //@   requires strideOf(layout) >= 0 && endsOK(ends, len(flatCoords), strideOf(layout))
@@ -204,7 +204,7 @@ package geom
 
 //@ func NewMultiLineString
 //@   requires strideOf(layout) >= 0
-//@   ensures fresh(res) && wf2(res) && res.layout == layout && len(res.flatCoords) == 0 && len(res.ends) == 0 && res.srid == 0
+//@   ensures fresh(res) && wf2(res) && res.layout == layout && res.flatCoords == nil && res.ends == nil && res.srid == 0
 
 //@ func Polygon.SetCoords
 //@   requires strideOK(g.layout, g.stride)
@@ -246,6 +246,7 @@ package geom
 //@   ensures lr.layout == old(g.layout) ==> forall j int :: 0 <= j && j < old(len(g.flatCoords)) ==> g.flatCoords[j] == old(g.flatCoords[j])
 //@   ensures lr.layout == old(g.layout) ==> forall j int :: 0 <= j && j < len(lr.flatCoords) ==> g.flatCoords[old(len(g.flatCoords)) + j] == old(lr.flatCoords[j])
 //@   ensures g.layout == old(g.layout) && g.stride == old(g.stride) && g.srid == old(g.srid)
+//@   ensures [storage] (fresh(g.flatCoords) || (base(g.flatCoords) == old(base(g.flatCoords)) && off(g.flatCoords) == old(off(g.flatCoords)) && cap(g.flatCoords) == old(cap(g.flatCoords)))) && (fresh(g.ends) || (base(g.ends) == old(base(g.ends)) && off(g.ends) == old(off(g.ends)) && cap(g.ends) == old(cap(g.ends))))
 //@   modifies *g, spare(g.flatCoords), spare(g.ends)
 
 //@ func MultiLineString.Push
@@ -257,6 +258,7 @@ package geom
 //@   ensures ls.layout == old(g.layout) ==> forall j int :: 0 <= j && j < old(len(g.flatCoords)) ==> g.flatCoords[j] == old(g.flatCoords[j])
 //@   ensures ls.layout == old(g.layout) ==> forall j int :: 0 <= j && j < len(ls.flatCoords) ==> g.flatCoords[old(len(g.flatCoords)) + j] == old(ls.flatCoords[j])
 //@   ensures g.layout == old(g.layout) && g.stride == old(g.stride) && g.srid == old(g.srid)
+//@   ensures [storage] (fresh(g.flatCoords) || (base(g.flatCoords) == old(base(g.flatCoords)) && off(g.flatCoords) == old(off(g.flatCoords)) && cap(g.flatCoords) == old(cap(g.flatCoords)))) && (fresh(g.ends) || (base(g.ends) == old(base(g.ends)) && off(g.ends) == old(off(g.ends)) && cap(g.ends) == old(cap(g.ends))))
 //@   modifies *g, spare(g.flatCoords), spare(g.ends)
 
 //@ func Polygon.LinearRing
@@ -298,7 +300,7 @@ package geom
 
 //@ func NewMultiPoint
 //@   requires strideOf(layout) >= 0
-//@   ensures fresh(res) && wfMP(res) && res.layout == layout && len(res.flatCoords) == 0 && len(res.ends) == 0
+//@   ensures fresh(res) && wfMP(res) && res.layout == layout && res.flatCoords == nil && res.ends == nil && res.srid == 0
 
 //@ func MultiPoint.SetCoords
 //@   requires strideOK(g.layout, g.stride)
@@ -354,6 +356,7 @@ package geom
 //@   ensures p.layout == old(g.layout) ==> forall j int :: 0 <= j && j < old(len(g.flatCoords)) ==> g.flatCoords[j] == old(g.flatCoords[j])
 //@   ensures p.layout == old(g.layout) ==> forall j int :: 0 <= j && j < len(p.flatCoords) ==> g.flatCoords[old(len(g.flatCoords)) + j] == old(p.flatCoords[j])
 //@   ensures g.layout == old(g.layout) && g.stride == old(g.stride) && g.srid == old(g.srid)
+//@   ensures [storage] (fresh(g.flatCoords) || (base(g.flatCoords) == old(base(g.flatCoords)) && off(g.flatCoords) == old(off(g.flatCoords)) && cap(g.flatCoords) == old(cap(g.flatCoords)))) && (fresh(g.ends) || (base(g.ends) == old(base(g.ends)) && off(g.ends) == old(off(g.ends)) && cap(g.ends) == old(cap(g.ends))))
 //@   modifies *g, spare(g.flatCoords), spare(g.ends)
 
 // ---------------------------------------------------------------------------
@@ -648,7 +651,7 @@ package geom
 
 //@ func NewMultiPolygon
 //@   requires strideOf(layout) >= 0
-//@   ensures fresh(res) && wf3(res) && res.layout == layout && len(res.flatCoords) == 0 && len(res.endss) == 0 && res.srid == 0
+//@   ensures fresh(res) && wf3(res) && res.layout == layout && res.flatCoords == nil && res.endss == nil && res.srid == 0
 
 //@ func MultiPolygon.NumPolygons
 //@   ensures res == len(g.endss)
@@ -864,3 +867,68 @@ package geom
 //@   loop 1:
 //@     invariant numOrds == strideOf(layout)
 //@     invariant forall k int :: 0 <= k && k < idx ==> c[k] == other[k]
+
+// ---------------------------------------------------------------------------
+// C02 / C01: MultiPolygon as a list of polygons. Polygon p of g has the ring ends g.endss[p] (absolute
+// offsets); it starts where the nearest earlier polygon with rings ends (0 if there is none).
+
+//@ func MultiPolygon.Push
+//@   requires wf3(g) && p != nil && wf2(p)
+//@   ensures p.layout != old(g.layout) ==> res != nil && istype(res, ErrLayoutMismatch) && unbox(res, ErrLayoutMismatch).Got == p.layout && unbox(res, ErrLayoutMismatch).Want == old(g.layout)
+//@   ensures p.layout != old(g.layout) ==> g.flatCoords == old(g.flatCoords) && g.endss == old(g.endss)
+//@   ensures p.layout == old(g.layout) ==> res == nil && len(g.endss) == old(len(g.endss)) + 1 && len(g.flatCoords) == old(len(g.flatCoords)) + len(p.flatCoords)
+//@   ensures [rows] p.layout == old(g.layout) ==> forall q int :: 0 <= q && q < old(len(g.endss)) ==> g.endss[q] == old(g.endss[q])
+//@   ensures [rowcells] p.layout == old(g.layout) ==> forall q, r int :: 0 <= q && q < old(len(g.endss)) && 0 <= r && r < len(g.endss[q]) ==> g.endss[q][r] == old(g.endss[q][r])
+//@   ensures [newrow] p.layout == old(g.layout) ==> len(g.endss[len(g.endss)-1]) == len(p.ends) && forall r int :: 0 <= r && r < len(p.ends) ==> g.endss[len(g.endss)-1][r] == p.ends[r] + old(len(g.flatCoords))
+//@   ensures [flatold] p.layout == old(g.layout) ==> forall j int :: 0 <= j && j < old(len(g.flatCoords)) ==> g.flatCoords[j] == old(g.flatCoords[j])
+//@   ensures [flatnew] p.layout == old(g.layout) ==> forall j int :: 0 <= j && j < len(p.flatCoords) ==> g.flatCoords[old(len(g.flatCoords)) + j] == old(p.flatCoords[j])
+//@   ensures [wf] p.layout == old(g.layout) ==> wf3(g)
+//@   ensures g.layout == old(g.layout) && g.stride == old(g.stride) && g.srid == old(g.srid)
+//@   ensures [storage] (fresh(g.flatCoords) || (base(g.flatCoords) == old(base(g.flatCoords)) && off(g.flatCoords) == old(off(g.flatCoords)) && cap(g.flatCoords) == old(cap(g.flatCoords)))) && (fresh(g.endss) || (base(g.endss) == old(base(g.endss)) && off(g.endss) == old(off(g.endss)) && cap(g.endss) == old(cap(g.endss))))
+//@   modifies *g, spare(g.flatCoords), spare(g.endss)
+//@   at exit: assert res == nil ==> len(g.endss) == old(len(g.endss)) + 1 && len(g.flatCoords) == old(len(g.flatCoords)) + len(p.flatCoords) && g.stride == old(g.stride) && g.layout == old(g.layout) && p.stride == g.stride
+//@   at exit: assert res == nil ==> forall q int :: 0 <= q && q < old(len(g.endss)) ==> g.endss[q] == old(g.endss[q])
+//@   at exit: assert res == nil ==> forall q, r int :: 0 <= q && q < old(len(g.endss)) && 0 <= r && r < len(g.endss[q]) ==> g.endss[q][r] == old(g.endss[q][r])
+//@   at exit: assert res == nil ==> len(g.endss[len(g.endss)-1]) == len(p.ends) && forall r int :: 0 <= r && r < len(p.ends) ==> g.endss[len(g.endss)-1][r] == p.ends[r] + old(len(g.flatCoords))
+//@   loop 1:
+//@     invariant len(ends) == len(p.ends) && fresh(ends) && g.flatCoords == old(g.flatCoords) && g.endss == old(g.endss) && g.layout == old(g.layout) && g.stride == old(g.stride) && g.srid == old(g.srid)
+//@     invariant forall r int :: 0 <= r && r < idx ==> ends[r] == p.ends[r] + offset
+//@     invariant forall q int :: 0 <= q && q < len(g.endss) ==> g.endss[q] == old(g.endss[q])
+//@     invariant forall q, r int :: 0 <= q && q < len(g.endss) && 0 <= r && r < len(g.endss[q]) ==> g.endss[q][r] == old(g.endss[q][r])
+
+// ---------------------------------------------------------------------------
+// C04: what the binary decoders need from GeometryCollection. They only push onto collections without a
+// fixed layout and only set the layout of a collection without members, so the member loops never run.
+
+//@ func GeometryCollection.Push
+//@   requires g.layout == 0
+//@   ensures res == nil && len(g.geoms) == old(len(g.geoms)) + len(gs) && g.layout == 0 && g.srid == old(g.srid)
+//@   ensures forall k int :: 0 <= k && k < old(len(g.geoms)) ==> g.geoms[k] == old(g.geoms[k])
+//@   ensures forall k int :: 0 <= k && k < len(gs) ==> g.geoms[old(len(g.geoms)) + k] == old(gs[k])
+//@   ensures [storage] fresh(g.geoms) || (base(g.geoms) == old(base(g.geoms)) && off(g.geoms) == old(off(g.geoms)) && cap(g.geoms) == old(cap(g.geoms)))
+//@   modifies *g, spare(g.geoms)
+//@   loop 1:
+//@     unreachable
+
+//@ func GeometryCollection.CheckLayout
+//@   requires len(g.geoms) == 0
+//@   ensures res == nil
+//@   modifies nothing
+//@   loop 1:
+//@     unreachable
+
+//@ func GeometryCollection.SetLayout
+//@   requires len(g.geoms) == 0
+//@   ensures res == nil && g.layout == layout && g.geoms == old(g.geoms) && g.srid == old(g.srid)
+//@   modifies *g
+
+// Empty recurses through the members by dynamic dispatch; the decoders only use the fact below
+//@ func GeometryCollection.Empty
+//@   trusted
+//@   ensures len(g.geoms) == 0 ==> res
+//@   modifies nothing
+
+//@ func NewPointFlatMaybeEmpty
+//@   requires strideOf(layout) >= 0 && (len(flatCoords) == 0 || len(flatCoords) == strideOf(layout))
+//@   ensures fresh(res) && wf0(res) && res.layout == layout && res.srid == 0
+//@   modifies nothing
